@@ -175,7 +175,7 @@ pub fn check_case(schema: &str, op: &str, frag: &str, config: &str) -> Vec<Viola
     }
     let schema_files = vec![("/proj/schema.graphql".to_string(), schema.to_string())];
     let op_files = vec![("/proj/op.graphql".to_string(), op.to_string()), ("/proj/frag.graphql".to_string(), frag.to_string())];
-    let r = run_project(&ProjectInput { schema_files: &schema_files, op_files: &op_files, config, generate: false });
+    let r = run_project(&ProjectInput { schema_files: &schema_files, op_files: &op_files, config, generate: false, check_only: false });
     for (stage, p) in &r.panics {
         out.push(mk(stage, p));
     }
